@@ -12,7 +12,8 @@
     Each thread owns [loans] Loan handles.  A client is any interleaving of
       lend        ([Lender::lend] = [BiArc::try_clone]: swap(SHARED))
       shared      ([Lender::shared] = [get_unconditional]: plain read)
-      get         ([Loan::get_ref/get_mut] = [get_if_shared]: load; then the access)
+      get         ([Loan::get_mut] = [get_if_shared]: load; then the access through [&mut X])
+      get_ref     ([Loan::get_ref] = [get_if_shared]: load; then the access through [&X])
       drop loan   ([BiArc::drop]: swap(UNSHARED); free iff the old value was UNSHARED)
       drop lender (same code on the Lender's handle)
     chosen by the schedule; what safe Rust forbids is disabled: using a Loan one
@@ -21,16 +22,17 @@
 
     One model step = one yield point of the hooks:
       site 40 Idle (dispatch of the next operation)   site 20 PLend   site 24 PShared
-      site 21 PGet    site 41 PAccess (client holds [&mut X])
+      site 21 PGet / PGetRef    site 41 PAccess (client holds [&mut X])    site 43 PAccessRef ([&X])
       site 22 PDropLoan / PDropLender (the swap)        site 23 PFree *)
 From Coq Require Import String.
 From Aranya Require Import base.Tactics base.Interleave gen.GenConc.
 
-Inductive bpc := BIdle | BLend | BShared | BGet | BAccess | BDropLoan | BDropLender | BFree.
-Inductive bop := OLend | OShared | OGet | ODropLoan | ODropLender.
+Inductive bpc := BIdle | BLend | BShared | BGet | BAccess | BGetRef | BAccessRef | BDropLoan | BDropLender | BFree.
+Inductive bop := OLend | OShared | OGet | ODropLoan | ODropLender | OGetRef.
 
 (** [res]: outcome of the thread's last operation
-    1 lend=Some 2 lend=None 3 get=Some 4 get=None 5 drop freed 6 drop kept 7 shared read *)
+    1 lend=Some 2 lend=None 3 get_mut=Some 4 get_mut=None 5 drop freed 6 drop kept 7 shared read
+    8 get_ref=Some 9 get_ref=None *)
 Record blocal := BL { bpc_of : bpc; loans : nat; res : N }.
 Record bshared := BS { state : bool; lown : bool; llive : bool; borrows : nat; freed : nat; uaf : bool }.
 Inductive bevent := BEv (t : nat) (o : bop).
@@ -47,6 +49,7 @@ Definition bstep (e : bevent) (l : blocal) (s : bshared) : option (blocal * bsha
     | OLend => if lown s then Some (BL BLend (loans l) (res l), BS (state s) (lown s) (llive s) (Datatypes.S (borrows s)) (freed s) (uaf s)) else None
     | OShared => if lown s then Some (BL BShared (loans l) (res l), BS (state s) (lown s) (llive s) (Datatypes.S (borrows s)) (freed s) (uaf s)) else None
     | OGet => if (1 <=? loans l)%nat then Some (BL BGet (loans l) (res l), s) else None
+    | OGetRef => if (1 <=? loans l)%nat then Some (BL BGetRef (loans l) (res l), s) else None
     | ODropLoan => if (1 <=? loans l)%nat then Some (BL BDropLoan (loans l) (res l), s) else None
     | ODropLender =>
       if lown s && (borrows s =? 0)%nat
@@ -66,6 +69,13 @@ Definition bstep (e : bevent) (l : blocal) (s : bshared) : option (blocal * bsha
     then Some (BL BAccess (loans l) 3, s')
     else Some (BL BIdle (loans l) 4, s')
   | BAccess =>    (* the client uses (&S, &mut X) *)
+    Some (BL BIdle (loans l) (res l), BS (state s) (lown s) (llive s) (borrows s) (freed s) (touch s))
+  | BGetRef =>    (* get_ref: the same conditional state.load() *)
+    let s' := BS (state s) (lown s) (llive s) (borrows s) (freed s) (touch s) in
+    if Bool.eqb (state s) state_shared
+    then Some (BL BAccessRef (loans l) 8, s')
+    else Some (BL BIdle (loans l) 9, s')
+  | BAccessRef => (* the client uses (&S, &X) *)
     Some (BL BIdle (loans l) (res l), BS (state s) (lown s) (llive s) (borrows s) (freed s) (touch s))
   | BDropLoan =>  (* state.swap(STATE_UNSHARED) on a Loan's handle *)
     let s' := BS state_unshared (lown s) (llive s) (borrows s) (freed s) (touch s) in
@@ -94,9 +104,12 @@ Definition bgstep := gstep btid bstep.
 Definition is_pc (p : bpc) (l : blocal) : nat :=
   match bpc_of l, p with
   | BIdle, BIdle | BLend, BLend | BShared, BShared | BGet, BGet | BAccess, BAccess
-  | BDropLoan, BDropLoan | BDropLender, BDropLender | BFree, BFree => 1
+  | BGetRef, BGetRef | BAccessRef, BAccessRef | BDropLoan, BDropLoan | BDropLender, BDropLender | BFree, BFree => 1
   | _, _ => 0
   end.
+(** A thread in one of these states is using a Loan it owns. *)
+Definition needs_loan (p : bpc) : bool :=
+  match p with BGet | BAccess | BGetRef | BAccessRef | BDropLoan => true | _ => false end.
 Definition n_loans (g : bstate) : nat := sumf loans (th g).
 Definition n_at (p : bpc) (g : bstate) : nat := sumf (is_pc p) (th g).
 Definition b2n (b : bool) : nat := if b then 1 else 0.
@@ -107,7 +120,7 @@ Definition handles (g : bstate) : nat := b2n (llive (sh g)) + n_loans g.
 Open Scope N_scope.
 Definition bsite (l : blocal) : N :=
   match bpc_of l with
-  | BIdle => 8 | BLend => 20 | BShared => 24 | BGet => 21 | BAccess => 9
+  | BIdle => 8 | BLend => 20 | BShared => 24 | BGet => 21 | BAccess => 9 | BGetRef => 21 | BAccessRef => 11
   | BDropLoan => 22 | BDropLender => 22 | BFree => 23
   end.
 Fixpoint bdigits (ls : list blocal) : list N :=
